@@ -18,7 +18,7 @@ RULE = ('each case = one endpoint fed 1..200 PING / PING-ACK frames (unique coun
         'call, frames split across calls); non-trivial = at least one PING answered and compared; distinct = hash of '
         'delivered bytes')
 MINIMA = {'pings_matched': 2000, 'ping_acks_delivered': 300, 'local_ping_ok': 200, 'local_ping_refused': 200,
-          'multi_ping_calls': 200}
+          'multi_ping_calls': 200, 'pure_ping_cases': 500, 'pure_ping_cases_idle_connection': 100}
 
 
 def n_cases(tier):
@@ -44,6 +44,10 @@ def run_case(idx, rng, tier, rep):
 
     stream = bytearray(pg.preface())
     nsid = 1
+    # in "pure" cases the peer sends nothing but PING / PING ACK frames after the handshake, so no
+    # receive_data call may fail: every PING must be reported and answered
+    pure = rng.random() < 0.4
+    open_streams_first = rng.random() < 0.5
     delivered_pings = []        # payloads of complete non-ACK PINGs delivered
     delivered_acks = []
     seen_ack_frames = []        # PING ACK payloads on E's wire
@@ -58,7 +62,7 @@ def run_case(idx, rng, tier, rep):
         if dead or goaway_seen:
             break
         # local traffic
-        if e_client and rng.random() < 0.4:
+        if e_client and rng.random() < 0.4 and (not pure or open_streams_first):
             r = t.call('send_headers', nsid, gen.valid_headers(rng, 'request'), end_stream=rng.random() < 0.5)
             if r.ok:
                 pg.note_e_stream(nsid)
@@ -72,6 +76,8 @@ def run_case(idx, rng, tier, rep):
                 stream += wire.build_ping(payload())
             elif r < 0.7:
                 stream += wire.build_ping(payload(), ack=True)
+            elif pure:
+                stream += wire.build_ping(payload(), ack=rng.random() < 0.3)
             else:
                 m = pg.step()
                 fr, _ = wire.parse_frames(m)
@@ -107,6 +113,10 @@ def run_case(idx, rng, tier, rep):
                         rep.violation('C26:unsolicited-ping-emitted', 'receive_data emitted a non-ACK PING', wit(t, e_client))
             if res.exc is not None:
                 dead = True
+                if pure:
+                    rep.violation('C26:ping-only-traffic-rejected:' + core.exc_key(res.exc),
+                                  'receive_data raised %r although the peer sent only PING / PING ACK frames' % res.exc,
+                                  wit(t, e_client, delivered_pings, seen_ack_frames))
                 if not isinstance(res.exc, h2.exceptions.ProtocolError):
                     rep.violation('C26:' + core.exc_key(res.exc), 'receive_data raised %r' % res.exc, wit(t, e_client))
                 # prefix property only
@@ -148,6 +158,10 @@ def run_case(idx, rng, tier, rep):
                 dead = True
                 break
     rep.count('pings_matched', len(seen_ack_frames))
+    if pure:
+        rep.count('pure_ping_cases')
+        if not h_has_streams(t):
+            rep.count('pure_ping_cases_idle_connection')
     rep.count('ping_acks_delivered', len(delivered_acks))
     if seen_ack_frames:
         rep.nontrivial(b''.join(all_in))
@@ -155,6 +169,10 @@ def run_case(idx, rng, tier, rep):
         rep.sample({'role': 'client' if e_client else 'server', 'pings_delivered': len(delivered_pings),
                     'acks_emitted': len(seen_ack_frames), 'ack_frames_delivered': len(delivered_acks),
                     'first_payloads': [p.hex() for p in delivered_pings[:4]], 'calls': len(all_in)})
+
+
+def h_has_streams(t):
+    return bool(getattr(t.c, 'streams', None)) or bool(getattr(t.c, 'highest_outbound_stream_id', 0))
 
 
 def local_ping(t, rng, rep, own):
